@@ -820,3 +820,9 @@ func (c *Ctx) loopSkipsJustified(fn *ssa.Function, sink *ssa.BasicBlock) (string
 	}
 	return bad, n, true
 }
+
+func init() {
+	reg := registry["C06"]
+	reg.Meta.Rules["C06.9"] = "integer elements are read with the signedness the datatype declares: in the numeric dataset readers a stored N-bit value is reinterpreted as signed only under the datatype's sign flag, and at N bits (shared with C01.1; an unsigned 64-bit value >= 2^63 read through int64 comes back negative)"
+	reg.Rules = append(reg.Rules, func(c *Ctx, r *Result) { c01signReaders(c, r, "C06.9") })
+}
